@@ -150,6 +150,8 @@ def main():
         index.append((name, props))
     with open(os.path.join(OUT, "INDEX.txt"), "w") as f:
         f.write("m01-lru-insert-range-lock-per-element C06\n")
+        # reverts of the four fix: commits (git diff <fix> <fix>^ -- inc)
+        f.write("r-revert-fix-d1 C01,C03,C08,C15\nr-revert-fix-d2 C14\nr-revert-fix-d3 C16,C17\nr-revert-fix-d4 C07,C06\n")
         for name, props in index:
             f.write("%s %s\n" % (name, props))
     print("wrote %d mutants" % len(index))
